@@ -13,6 +13,7 @@ import RsddModel.Driver.CnfStream
 import RsddModel.Driver.SerLines
 import RsddModel.Driver.FfiStream
 import RsddModel.Driver.CliStream
+import RsddModel.Driver.HashStream
 /-!
 # Line-protocol driver
 
@@ -44,6 +45,7 @@ def judge (line : String) : String :=
     | "ser" => checkSerLine kvs rhs
     | "ffi" => checkFfiLine kvs rhs
     | "cli" => checkCliLine kvs rhs
+    | "hash" => checkHashLine kvs rhs
     | _ => s!"FAIL PARSE unknown stream {stream}"
 
 partial def loop (h : IO.FS.Stream) : IO Unit := do
